@@ -128,27 +128,29 @@ type FuncContract struct {
 	Mods   []*ModClause
 	Writes []*ModClause // write-freedom clauses: pre-existing objects that may be written at all (even with equal values)
 
-	Loops    map[int]*LoopContract
-	Inline   bool
-	Trusted  bool
-	Pure     bool // no effects at all (extern stubs)
-	NoAlloc  bool
-	Canon     []string         // properties owning the canonicalisation-stability obligations of the type tests in this function
-	Deferred  bool             // when started with `go`, the function takes effect only after the spawning activation has returned
-	Recovered bool             // explicit panics in this function are caught by a deferred recover up the (trusted) call chain
-	Opaque   bool              // do not inline even if loop free: treat by contract only
-	CallsAs  map[string]string // source text of callee expr -> contract key
-	Logicals []QVar
-	Lets     []*LetDef // names defined from the parameters at entry
-	GhostSets []string            // ghost sets of strings declared (empty at entry) by this function
-	GhostAdds []*GhostAdd         // callee side: after the preconditions, add a value to a ghost set of the caller
-	Across   map[string][]*Clause // invariants over locals that hold across calls of the named callee (callbacks preserve them)
-	OnWrite  map[string][]*Clause // predicates over `value` for every write into the described map
-	ArgFrom  []*ArgFrom
-	Logged   bool
-	File     string
-	Line     int
-	used     bool
+	Loops        map[int]*LoopContract
+	Inline       bool
+	Trusted      bool
+	TrustedFrame bool // the modifies clause is assumed (no frame / write-target obligations); everything else is checked
+	Pure         bool // no effects at all (extern stubs)
+	NoAlloc      bool
+	Canon        []string          // properties owning the canonicalisation-stability obligations of the type tests in this function
+	Deferred     bool              // when started with `go`, the function takes effect only after the spawning activation has returned
+	Recovered    bool              // explicit panics in this function are caught by a deferred recover up the (trusted) call chain
+	Opaque       bool              // do not inline even if loop free: treat by contract only
+	CallsAs      map[string]string // source text of callee expr -> contract key
+	Logicals     []QVar
+	Lets         []*LetDef            // names defined from the parameters at entry
+	GhostSets    []string             // ghost sets of strings declared (empty at entry) by this function
+	GhostAdds    []*GhostAdd          // callee side: after the preconditions, add a value to a ghost set of the caller
+	Across       map[string][]*Clause // invariants over locals that hold across calls of the named callee (callbacks preserve them)
+	OnWrite      map[string][]*Clause // predicates over `value` for every write into the described map
+	ArgFrom      []*ArgFrom
+	CallPre      map[string][]*Clause // callpre CALLEE: predicate over arg0..argN and the caller's names, an obligation before every direct call of CALLEE
+	Logged       bool
+	File         string
+	Line         int
+	used         bool
 }
 
 type SpecFn struct {
@@ -174,10 +176,10 @@ type AtomicField struct {
 
 type ContractSet struct {
 	AtomicFields []*AtomicField
-	Funcs      map[string]*FuncContract
-	Specs      map[string]*SpecFn
-	GlobalInvs map[string][]*GlobalInv // by <shortpkg>.<global name>
-	Files      []string
+	Funcs        map[string]*FuncContract
+	Specs        map[string]*SpecFn
+	GlobalInvs   map[string][]*GlobalInv // by <shortpkg>.<global name>
+	Files        []string
 }
 
 func NewContractSet() *ContractSet {
@@ -241,6 +243,13 @@ func (fc *FuncContract) Mentions(prop string) bool {
 			}
 		}
 	}
+	for _, cs := range fc.CallPre {
+		for _, c := range cs {
+			if has(c.Props) {
+				return true
+			}
+		}
+	}
 	for _, a := range fc.ArgFrom {
 		if has(a.Props) {
 			return true
@@ -253,7 +262,7 @@ var tagRe = regexp.MustCompile(`^\[([^\]]*)\]\s*`)
 var labelRe = regexp.MustCompile(`^([A-Za-z_][A-Za-z0-9_\-]*):\s+`)
 var headRe = regexp.MustCompile(`^(func|iface|sig|extern|spec|globalinv|atomicfield)\s+(.*)$`)
 var clauseKw = map[string]bool{"returns": true, "safety": true, "requires": true, "ensures": true, "modifies": true, "writes": true,
-	"loop": true, "let": true, "across": true, "ghostset": true, "ghostadd": true, "onwrite": true, "argfrom": true, "inline": true, "trusted": true, "pure": true, "calls": true, "logical": true, "opaque": true, "recovered": true, "deferred": true, "canon": true, "logged": true, "noalloc": true}
+	"loop": true, "let": true, "across": true, "ghostset": true, "ghostadd": true, "onwrite": true, "callpre": true, "argfrom": true, "inline": true, "trusted": true, "trustedframe": true, "pure": true, "calls": true, "logical": true, "opaque": true, "recovered": true, "deferred": true, "canon": true, "logged": true, "noalloc": true}
 
 func parseTags(s string) (props []string, profile string, rest string) {
 	m := tagRe.FindStringSubmatch(s)
@@ -511,6 +520,8 @@ func (cs *ContractSet) addClause(fc *FuncContract, t, file string, line int) err
 		fc.Inline = true
 	case "trusted":
 		fc.Trusted = true
+	case "trustedframe":
+		fc.TrustedFrame = true
 	case "pure":
 		fc.Pure = true
 	case "noalloc":
@@ -532,7 +543,7 @@ func (cs *ContractSet) addClause(fc *FuncContract, t, file string, line int) err
 			return fmt.Errorf("%s:%d: calls needs 'as'", file, line)
 		}
 		fc.CallsAs[strings.TrimSpace(rest[:i])] = strings.TrimSpace(rest[i+4:])
-	case "across", "onwrite":
+	case "across", "onwrite", "callpre":
 		// across <callee>: expr   |   onwrite <map description>: expr over `value`
 		props, profile, r := parseTags(rest)
 		i := strings.Index(r, ":")
@@ -544,7 +555,12 @@ func (cs *ContractSet) addClause(fc *FuncContract, t, file string, line int) err
 			return fmt.Errorf("%s:%d: %v", file, line, err)
 		}
 		c := &Clause{Kind: kw, Props: props, Profile: profile, Label: strings.TrimSpace(r[:i]), Text: strings.TrimSpace(r[i+1:]), Expr: ex, File: file, Line: line}
-		if kw == "across" {
+		if kw == "callpre" {
+			if fc.CallPre == nil {
+				fc.CallPre = map[string][]*Clause{}
+			}
+			fc.CallPre[c.Label] = append(fc.CallPre[c.Label], c)
+		} else if kw == "across" {
 			if fc.Across == nil {
 				fc.Across = map[string][]*Clause{}
 			}
